@@ -148,7 +148,8 @@ def install(world, cfg) -> None:
     real_seed(cfg.get("stream_seed", 0))
     np.random.seed(cfg.get("stream_seed", 0) % (2**32))
     # S3
-    if cfg.get("simset", False):
+    import os  # noqa: PLC0415
+    if cfg.get("simset", False) and not os.environ.get("LABSIM_NOSHIM"):
         SimSet.perm_seed = cfg.get("perm_seed", 0)
         SimSet.iterations = 0
         for modname in S3_MODULES:
